@@ -14,12 +14,30 @@ def _narrow_to(val, t):
     """value after conversion to the (char-sized) integer type t; wider types are left alone"""
     if val is None or not isinstance(val, int):
         return val
-    t = (t or '').replace('const ', '').strip()
+    t = (t or '').replace('const ', '').replace('volatile ', '').strip()
     if t in ('char', 'signed char', 'int8_t'):
         return ((val + 128) % 256) - 128
     if t in ('unsigned char', 'uint8_t', '_Bool', 'bool'):
         return val % 256 if t not in ('_Bool', 'bool') else int(bool(val))
+    w = _INT_WIDTH.get(t)
+    if w is not None:
+        bits, signed = w
+        if signed:
+            half = 1 << (bits - 1)
+            return ((val + half) % (1 << bits)) - half
+        return val % (1 << bits)
     return val
+
+
+# LP64 integer types: (bits, signed).  Arithmetic results and integral conversions are reduced to the width and
+# signedness of their type, so an unsigned difference wraps and a narrowing conversion truncates as the compiled code does.
+_INT_WIDTH = {
+    'short': (16, True), 'unsigned short': (16, False), 'int16_t': (16, True), 'uint16_t': (16, False),
+    'int': (32, True), 'unsigned int': (32, False), 'unsigned': (32, False), 'int32_t': (32, True), 'uint32_t': (32, False),
+    'long': (64, True), 'unsigned long': (64, False), 'long long': (64, True), 'unsigned long long': (64, False),
+    'int64_t': (64, True), 'uint64_t': (64, False), 'size_t': (64, False), 'ssize_t': (64, True), 'off_t': (64, True),
+    'intptr_t': (64, True), 'uintptr_t': (64, False), 'ptrdiff_t': (64, True),
+}
 
 
 def run_function(prog, f, args, stubs, max_steps=400, extra_env=None):
@@ -32,6 +50,12 @@ def run_function(prog, f, args, stubs, max_steps=400, extra_env=None):
     steps = 0
 
     def ev(e):
+        if e.get('kind') in ('ImplicitCastExpr', 'CStyleCastExpr') and e.get('castKind') == 'IntegralCast' and e.get('inner'):
+            from .frontend import dtype as _dt
+            return _narrow_to(ev(e['inner'][0]), _dt(e))
+        if e.get('kind') in ('ParenExpr', 'ImplicitCastExpr', 'CStyleCastExpr', 'ConstantExpr') and e.get('inner') and \
+                int_value(strip(e)) is None:
+            return ev(e['inner'][0])
         s = strip(e)
         v = int_value(s)
         if v is not None and not isinstance(v, str):
@@ -107,7 +131,8 @@ def run_function(prog, f, args, stubs, max_steps=400, extra_env=None):
             a = ev(children(s)[0])
             if a is None:
                 return None
-            return {'-': -a, '+': a, '!': int(not a), '~': ~a}.get(s.get('opcode'))
+            from .frontend import dtype as _dt
+            return _narrow_to({'-': -a, '+': a, '!': int(not a), '~': ~a}.get(s.get('opcode')), _dt(s))
         if k == 'BinaryOperator':
             op = s.get('opcode')
             if op == '=':
@@ -138,6 +163,9 @@ def run_function(prog, f, args, stubs, max_steps=400, extra_env=None):
             if a is None or b is None:
                 return None
             try:
+                if op in ('+', '-', '*', '<<'):
+                    from .frontend import dtype as _dt
+                    return _narrow_to({'+': a + b, '-': a - b, '*': a * b, '<<': a << b}[op], _dt(s))
                 return {'+': a + b, '-': a - b, '*': a * b, '==': int(a == b), '!=': int(a != b), '<': int(a < b),
                         '>': int(a > b), '<=': int(a <= b), '>=': int(a >= b), '&': a & b, '|': a | b, '^': a ^ b,
                         '/': int(a / b) if b else None, '%': (a - b * int(a / b)) if b else None,
